@@ -763,15 +763,19 @@ func (p *Project) WithServicesTransform(fn func(name string, s ServiceConfig) (S
 	eg.Go(func() error {
 		s := Services{}
 		for expect > 0 {
+			verifYield("C.select", "")
 			select {
 			case <-ctx.Done():
 				// interrupted as some goroutine returned an error
+				verifYield("C.ctxDone", "")
 				return nil
 			case r := <-resultCh:
+				verifYield("C.recv", r.name)
 				s[r.name] = r.service
 				expect--
 			}
 		}
+		verifYield("C.exit", "")
 		newProject.Services = s
 		return nil
 	})
@@ -779,7 +783,9 @@ func (p *Project) WithServicesTransform(fn func(name string, s ServiceConfig) (S
 		name := n
 		service := s
 		eg.Go(func() error {
+			verifYield("W.begin", name)
 			updated, err := fn(name, service)
+			verifYield("W.return", name)
 			if err != nil {
 				return err
 			}
@@ -787,9 +793,11 @@ func (p *Project) WithServicesTransform(fn func(name string, s ServiceConfig) (S
 				name:    name,
 				service: updated,
 			}
+			verifYield("W.exit", name)
 			return nil
 		})
 	}
+	verifYield("M.wait", "")
 	return newProject, eg.Wait()
 }
 
